@@ -422,6 +422,8 @@ func modeC14() {
 		var out *burstOut
 		cfg := boxCfg()
 		cfg.LockPoints = true
+		cfg.TimerTies = true // expiry and a join due at the same instant: both orders
+		cfg.Demote = true    // one deviation may keep a request handler out of the way for long
 		bound := 2
 		if thorough {
 			bound = 3
